@@ -1,1 +1,716 @@
-//! terminal emulation drivers (filled in per property)
+//! Terminal emulation drivers: construction of (buffer, caret, parser) for every text-mode emulation,
+//! per-character feeding under catch_unwind, token alphabets and reachable start contexts.
+
+use crate::{catch, Fnv, PanicRec};
+use icy_engine::{ansi, ascii, atascii, avatar, ctrla, mode7, pcboard, petscii, renegade, viewdata, Buffer, BufferParser, CallbackAction, Caret, TextPane};
+
+#[derive(Clone, Copy, PartialEq, Eq, Debug)]
+pub enum Emu {
+    Ansi(u8), // music option 0 Off, 1 Conflicting, 2 Banana, 3 Both
+    Avatar,
+    PcBoard,
+    CtrlA,
+    Renegade,
+    Petscii,
+    Atascii,
+    Viewdata,
+    Mode7,
+    Ascii,
+}
+
+impl Emu {
+    pub const ALL: [Emu; 13] = [
+        Emu::Ansi(0),
+        Emu::Ansi(3),
+        Emu::Ansi(1),
+        Emu::Ansi(2),
+        Emu::Avatar,
+        Emu::PcBoard,
+        Emu::CtrlA,
+        Emu::Renegade,
+        Emu::Petscii,
+        Emu::Atascii,
+        Emu::Viewdata,
+        Emu::Mode7,
+        Emu::Ascii,
+    ];
+
+    pub fn name(&self) -> String {
+        match self {
+            Emu::Ansi(0) => "ansi".into(),
+            Emu::Ansi(1) => "ansi+music-conflicting".into(),
+            Emu::Ansi(2) => "ansi+music-banana".into(),
+            Emu::Ansi(_) => "ansi+music-both".into(),
+            Emu::Avatar => "avatar".into(),
+            Emu::PcBoard => "pcboard".into(),
+            Emu::CtrlA => "ctrla".into(),
+            Emu::Renegade => "renegade".into(),
+            Emu::Petscii => "petscii".into(),
+            Emu::Atascii => "atascii".into(),
+            Emu::Viewdata => "viewdata".into(),
+            Emu::Mode7 => "mode7".into(),
+            Emu::Ascii => "ascii".into(),
+        }
+    }
+
+    pub fn from_name(s: &str) -> Emu {
+        *Emu::ALL.iter().find(|e| e.name() == s).unwrap_or(&Emu::Ansi(0))
+    }
+
+    pub fn is_ansi_family(&self) -> bool {
+        matches!(self, Emu::Ansi(_) | Emu::Avatar | Emu::PcBoard | Emu::CtrlA | Emu::Renegade)
+    }
+
+    pub fn is_fixed_grid(&self) -> bool {
+        matches!(self, Emu::Viewdata | Emu::Mode7)
+    }
+
+    pub fn make(&self) -> Box<dyn BufferParser> {
+        match self {
+            Emu::Ansi(m) => {
+                let mut p = ansi::Parser::default();
+                p.ansi_music = match m {
+                    0 => ansi::MusicOption::Off,
+                    1 => ansi::MusicOption::Conflicting,
+                    2 => ansi::MusicOption::Banana,
+                    _ => ansi::MusicOption::Both,
+                };
+                Box::new(p)
+            }
+            Emu::Avatar => Box::<avatar::Parser>::default(),
+            Emu::PcBoard => Box::<pcboard::Parser>::default(),
+            Emu::CtrlA => Box::<ctrla::Parser>::default(),
+            Emu::Renegade => Box::<renegade::Parser>::default(),
+            Emu::Petscii => Box::<petscii::Parser>::default(),
+            Emu::Atascii => Box::<atascii::Parser>::default(),
+            Emu::Viewdata => Box::<viewdata::Parser>::default(),
+            Emu::Mode7 => Box::<mode7::Parser>::default(),
+            Emu::Ascii => Box::<ascii::Parser>::default(),
+        }
+    }
+}
+
+pub enum Fed {
+    Ok(CallbackAction),
+    Err,
+    Panic(PanicRec),
+}
+
+pub struct Term {
+    pub emu: Emu,
+    pub buf: Buffer,
+    pub caret: Caret,
+    pub parser: Box<dyn BufferParser>,
+    pub fed: u64,
+    pub errs: u64,
+    pub resized: bool,
+}
+
+impl Term {
+    pub fn new(emu: Emu, w: i32, h: i32) -> Term {
+        let mut buf = Buffer::new((w, h));
+        buf.is_terminal_buffer = true;
+        Term {
+            emu,
+            buf,
+            caret: Caret::default(),
+            parser: emu.make(),
+            fed: 0,
+            errs: 0,
+            resized: false,
+        }
+    }
+
+    #[inline]
+    pub fn feed(&mut self, b: u8) -> Fed {
+        self.fed += 1;
+        let (p, buf, caret) = (&mut self.parser, &mut self.buf, &mut self.caret);
+        match catch(|| p.print_char(buf, 0, caret, b as char)) {
+            Ok(Ok(a)) => {
+                if let CallbackAction::ResizeTerminal(_, _) = a {
+                    self.resized = true;
+                }
+                Fed::Ok(a)
+            }
+            Ok(Err(_)) => {
+                self.errs += 1;
+                Fed::Err
+            }
+            Err(p) => Fed::Panic(p),
+        }
+    }
+
+    /// feed a prefix whose panics are not of interest (context set-up); returns false if it panicked
+    pub fn feed_quiet(&mut self, bytes: &[u8]) -> bool {
+        let mut ok = true;
+        for &b in bytes {
+            if let Fed::Panic(_) = self.feed(b) {
+                ok = false;
+            }
+        }
+        ok
+    }
+
+    /// observable state fingerprint
+    pub fn fingerprint(&self) -> u64 {
+        let mut f = Fnv::new();
+        let p = self.caret.get_position();
+        f.i32(p.x);
+        f.i32(p.y);
+        let a = self.caret.get_attribute();
+        f.u32(a.get_foreground());
+        f.u32(a.get_background());
+        f.u32(a.attr as u32);
+        f.u8(self.caret.insert_mode as u8);
+        f.i32(self.buf.get_width());
+        f.i32(self.buf.get_height());
+        f.i32(self.buf.get_first_visible_line());
+        f.str(&format!("{:?}", self.buf.terminal_state));
+        f.u64(self.buf.sixel_threads.len() as u64);
+        for l in &self.buf.layers {
+            f.i32(l.get_width());
+            f.i32(l.get_height());
+            f.u64(l.lines.len() as u64);
+            for line in &l.lines {
+                f.u64(line.chars.len() as u64);
+                for c in &line.chars {
+                    f.u32(c.ch as u32);
+                    f.u32(c.attribute.get_foreground());
+                    f.u32(c.attribute.get_background());
+                    f.u32(c.attribute.attr as u32);
+                }
+            }
+        }
+        f.finish()
+    }
+}
+
+#[derive(Clone, Debug)]
+pub struct Token {
+    pub bytes: Vec<u8>,
+    /// names the generating table row; used in signatures (never the raw input)
+    pub key: String,
+}
+
+fn tok(key: impl Into<String>, bytes: impl AsRef<[u8]>) -> Token {
+    Token { bytes: bytes.as_ref().to_vec(), key: key.into() }
+}
+
+pub const CSI_PREFIXES: [&str; 5] = ["", "?", "=", "!", "<"];
+pub const CSI_SUFFIXES: [&str; 4] = ["", " ", "$", "*"];
+
+fn csi_key(prefix: &str, suffix: &str, fin: u8) -> String {
+    let mut k = String::from("CSI");
+    if !prefix.is_empty() {
+        k.push(' ');
+        k.push_str(prefix);
+    }
+    if !suffix.is_empty() {
+        k.push(' ');
+        k.push_str(if suffix == " " { "SP" } else { suffix });
+    }
+    k.push(' ');
+    k.push(fin as char);
+    k
+}
+
+pub fn csi(prefix: &str, params: &str, suffix: &str, fin: u8) -> Token {
+    let mut b = vec![0x1b, b'['];
+    b.extend_from_slice(prefix.as_bytes());
+    b.extend_from_slice(params.as_bytes());
+    b.extend_from_slice(suffix.as_bytes());
+    b.push(fin);
+    tok(csi_key(prefix, suffix, fin), b)
+}
+
+/// parameter strings for the complete table at depth 1
+pub fn params_full(w: i32, h: i32) -> Vec<String> {
+    let mid = (h / 2).max(1);
+    let mut v: Vec<String> = vec![
+        "".into(),
+        "0".into(),
+        "1".into(),
+        format!("{mid}"),
+        format!("{h}"),
+        format!("{}", h + 1),
+        format!("{w}"),
+        format!("{}", w + 1),
+        "9999".into(),
+        "2147483647".into(),
+        ";".into(),
+        "1;1".into(),
+        "0;0".into(),
+        format!("{h};{w}"),
+        format!("{};{}", h + 1, w + 1),
+        "5;2".into(),
+        "2;1".into(),
+        "9999;9999".into(),
+        "1;1;1".into(),
+        format!("8;{h};{w}"),
+        "8;0;0".into(),
+        "0;0;0;0".into(),
+        format!("1;1;{h};{w}"),
+        format!("{h};{w};1;1"),
+        format!("{};{};{};{}", h + 1, w + 1, h + 2, w + 2),
+        "1;255;255;255".into(),
+        "0;1;2;3".into(),
+        format!("65;1;1;{h};{w}"),
+        "65;0;0;0;0".into(),
+        format!("65;{h};{w};1;1"),
+        "1;1;1;1;1;1".into(),
+        format!("1;1;0;0;{h};{w}"),
+        format!("1;1;{h};{w};0;0"),
+        "38;5;1".into(),
+        "38;2;1;2;3".into(),
+        "48;5;300".into(),
+        "38;2".into(),
+        "38".into(),
+        "1;5;7;4;31;42".into(),
+        "0;99".into(),
+        "1;99".into(),
+        ";;;;;;;;;;;;;;;;;;;;;;;;;;;;;;;;;;;;;;;;".into(),
+    ];
+    v.dedup();
+    v
+}
+
+/// single-value menu for depth >= 2 (no huge values: those belong to C03 and appear at depth 1 only)
+pub fn params_small(size: i32, level: u8) -> Vec<String> {
+    let mid = (size / 2).max(1);
+    match level {
+        2 => vec!["".into(), "0".into(), "1".into(), format!("{mid}"), format!("{size}"), format!("{}", size + 1)],
+        _ => vec!["".into(), "0".into(), format!("{mid}"), format!("{}", size + 1)],
+    }
+}
+
+/// every CSI final x intermediate x parameter string of the complete table
+pub fn csi_table_full(w: i32, h: i32) -> Vec<Token> {
+    let params = params_full(w, h);
+    let mut v = Vec::new();
+    for prefix in CSI_PREFIXES {
+        for suffix in CSI_SUFFIXES {
+            if !prefix.is_empty() && !suffix.is_empty() {
+                continue;
+            }
+            for fin in 0x40u8..=0x7e {
+                for p in &params {
+                    v.push(csi(prefix, p, suffix, fin));
+                }
+            }
+        }
+    }
+    v
+}
+
+/// finals that the ANSI parser implements, with the parameter "axis" they work on
+/// (v = vertical/rows, h = horizontal/columns, n = small selector, 0 = no parameter)
+const CSI_PLAIN: &[(u8, char)] = &[
+    (b'A', 'v'), (b'B', 'v'), (b'C', 'h'), (b'D', 'h'), (b'E', 'v'), (b'F', 'v'), (b'G', 'h'), (b'J', 'n'), (b'K', 'n'), (b'L', 'v'), (b'M', 'v'),
+    (b'P', 'h'), (b'S', 'v'), (b'T', 'v'), (b'X', 'h'), (b'Y', 'n'), (b'Z', 'n'), (b'@', 'h'), (b'\'', 'h'), (b'a', 'h'), (b'b', 'h'), (b'd', 'v'),
+    (b'e', 'v'), (b'j', 'h'), (b'k', 'v'), (b'g', 'n'), (b'u', '0'), (b's', '0'), (b'c', '0'), (b'~', 'n'),
+];
+
+pub fn ansi_core(w: i32, h: i32, level: u8) -> Vec<Token> {
+    let mut v: Vec<Token> = Vec::new();
+    // printables and C0 controls
+    for (k, b) in [
+        ("print A", b'A'), ("print SP", b' '), ("print FF", 0xff), ("NUL", 0), ("BEL", 7), ("BS", 8), ("TAB", 9), ("LF", 10), ("VT", 11), ("FF", 12), ("CR", 13),
+        ("DEL", 0x7f), ("SO", 0x0e),
+    ] {
+        v.push(tok(k, [b]));
+    }
+    if level <= 2 {
+        v.push(tok("print line", vec![b'x'; w.max(1) as usize]));
+        v.push(tok("print line-1", vec![b'y'; (w - 1).max(1) as usize]));
+    }
+    // ESC level
+    for c in b"78cDMEH" {
+        v.push(tok(format!("ESC {}", *c as char), [0x1b, *c]));
+    }
+    v.push(tok("ESC ESC", [0x1b, 0x1b]));
+    v.push(tok("ESC LF", [0x1b, 0x0a]));
+    if level <= 2 {
+        v.push(tok("ESC FF", [0x1b, 0x0c]));
+        v.push(tok("ESC other", [0x1b, b'Q']));
+        v.push(tok("ESC invalid", [0x1b, 0x01]));
+    }
+    for &(fin, axis) in CSI_PLAIN {
+        let menu: Vec<String> = match axis {
+            'v' => params_small(h, level),
+            'h' => params_small(w, level),
+            'n' => vec!["".into(), "0".into(), "1".into(), "2".into(), "3".into(), "4".into(), "5".into()],
+            _ => vec!["".into()],
+        };
+        for p in menu {
+            v.push(csi("", &p, "", fin));
+        }
+    }
+    // cursor position, two parameters
+    let hv = params_small(h, 3);
+    let wv = params_small(w, 3);
+    for fin in [b'H', b'f'] {
+        for a in &hv {
+            for b in &wv {
+                if fin == b'f' && level > 2 && !(a.is_empty() || b.is_empty()) {
+                    continue;
+                }
+                let p = if a.is_empty() && b.is_empty() { String::new() } else { format!("{a};{b}") };
+                v.push(csi("", &p, "", fin));
+            }
+        }
+    }
+    // margins
+    let mid = (h / 2).max(1);
+    let mut margins: Vec<String> =
+        vec!["".into(), "0;0".into(), "1;1".into(), format!("2;{}", (h - 1).max(1)), format!("{mid};{mid}"), format!("{h};1"), format!("1;{}", h + 1), format!("{}", mid)];
+    margins.push(format!("1;{h};1;{w}"));
+    margins.push(format!("2;{};2;{}", (h - 1).max(1), (w - 1).max(1)));
+    margins.push("0;0;0;0".into());
+    margins.push(format!("{h};1;{w};1"));
+    margins.push(format!("1;{};1", h));
+    for m in &margins {
+        v.push(csi("", m, "", b'r'));
+    }
+    for m in ["", "0;0", "1;1", &format!("2;{}", (w - 1).max(1)), &format!("{w};1"), &format!("1;{}", w + 1)] {
+        v.push(csi("", m, "", b's'));
+    }
+    v.push(csi("=", "", "", b'r'));
+    for a in 0..4 {
+        for n in ["0", "1", &format!("{mid}"), &format!("{}", h.max(w) + 1)] {
+            v.push(csi("=", &format!("{a};{n}"), "", b'm'));
+        }
+    }
+    // modes
+    for m in ["4", "6", "7", "25", "33", "35", "69", "9", "1000"] {
+        v.push(csi("?", m, "", b'h'));
+        v.push(csi("?", m, "", b'l'));
+    }
+    v.push(csi("", "4", "", b'h'));
+    v.push(csi("", "4", "", b'l'));
+    v.push(csi("!", "", "", b'p'));
+    v.push(csi("<", "", "", b'c'));
+    v.push(csi("<", "1", "", b'c'));
+    for n in ["1", "2", "3"] {
+        v.push(csi("=", n, "", b'n'));
+    }
+    for n in ["5", "6", "255"] {
+        v.push(csi("", n, "", b'n'));
+    }
+    v.push(csi("?", "62", "", b'n'));
+    v.push(csi("?", "63;1", "", b'n'));
+    // SGR
+    for m in ["", "0", "1", "5", "7", "8", "1;5;31;44", "38;5;196", "48;2;1;2;3", "38;5", "27", "90", "107", "10"] {
+        v.push(csi("", m, "", b'm'));
+    }
+    // t
+    v.push(csi("", "1;10;20;30", "", b't'));
+    v.push(csi("", "0;10;20;30", "", b't'));
+    v.push(csi("", "1;1;1", "", b't'));
+    // SP functions
+    for p in params_small(w, level) {
+        v.push(csi("", &p, " ", b'@'));
+        v.push(csi("", &p, " ", b'A'));
+        v.push(csi("", &p, " ", b'd'));
+    }
+    for p in ["", "0;0", "0;1", "0;42", "0;43", "1;255"] {
+        v.push(csi("", p, " ", b'D'));
+    }
+    // $ functions
+    let rects: Vec<String> = vec![
+        format!("1;1;{h};{w}"),
+        "0;0;0;0".into(),
+        format!("{h};{w};1;1"),
+        format!("{};{};{};{}", h + 1, w + 1, h + 2, w + 2),
+        format!("{mid};1;{mid};{w}"),
+        "1;1".into(),
+    ];
+    for r in &rects {
+        v.push(csi("", r, "$", b'z'));
+        v.push(csi("", r, "$", b'{'));
+        v.push(csi("", &format!("66;{r}"), "$", b'x'));
+    }
+    v.push(csi("", "2", "$", b'w'));
+    v.push(csi("", "1", "$", b'w'));
+    // * functions
+    for p in ["", "0", "1", "2", "63", "64"] {
+        v.push(csi("", p, "*", b'z'));
+    }
+    for p in ["", "0;0", "1;5", "0;99", "2;3"] {
+        v.push(csi("", p, "*", b'r'));
+    }
+    for p in [format!("1;1;1;1;{h};{w}"), "1;1;0;0;0;0".into(), format!("1;1;{h};{w};1;1"), "1;1".into(), format!("1;0;0;0;{};{}", h + 1, w + 1)] {
+        v.push(csi("", &p, "*", b'y'));
+    }
+    // DCS / OSC / APS
+    for t in dcs_osc_tokens(level) {
+        v.push(t);
+    }
+    v
+}
+
+/// ~110 token alphabet for depth-3 exploration: one or two representatives of every state-changing function
+pub fn ansi_mini(w: i32, h: i32) -> Vec<Token> {
+    let mut v: Vec<Token> = Vec::new();
+    for (k, b) in [("print A", b'A'), ("BS", 8u8), ("TAB", 9), ("LF", 10), ("FF", 12), ("CR", 13), ("DEL", 0x7f)] {
+        v.push(tok(k, [b]));
+    }
+    v.push(tok("print line", vec![b'x'; w.max(1) as usize]));
+    for c in b"78cDME" {
+        v.push(tok(format!("ESC {}", *c as char), [0x1b, *c]));
+    }
+    for &(fin, axis) in CSI_PLAIN {
+        let big = match axis {
+            'v' => format!("{}", h + 1),
+            'h' => format!("{}", w + 1),
+            'n' => "2".to_string(),
+            _ => continue,
+        };
+        if matches!(fin, b'j' | b'k' | b'~' | b'g' | b'\'' | b'a' | b'e') {
+            continue;
+        }
+        v.push(csi("", "", "", fin));
+        v.push(csi("", &big, "", fin));
+    }
+    for fin in [b'u', b's'] {
+        v.push(csi("", "", "", fin));
+    }
+    v.push(csi("", "", "", b'H'));
+    v.push(csi("", &format!("{};{}", h + 1, w + 1), "", b'H'));
+    v.push(csi("", &format!("{};{}", (h / 2).max(1), (w / 2).max(1)), "", b'H'));
+    for m in ["", "0;0", &format!("2;{}", (h - 1).max(1)), &format!("1;{}", h + 1), &format!("2;{};2;{}", (h - 1).max(1), (w - 1).max(1)), "0;0;0;0"] {
+        v.push(csi("", m, "", b'r'));
+    }
+    v.push(csi("", &format!("2;{}", (w - 1).max(1)), "", b's'));
+    v.push(csi("=", "", "", b'r'));
+    v.push(csi("=", "1;0", "", b'm'));
+    v.push(csi("=", &format!("0;{}", h + 1), "", b'm'));
+    for m in ["7", "69"] {
+        v.push(csi("?", m, "", b'h'));
+        v.push(csi("?", m, "", b'l'));
+    }
+    v.push(csi("", "4", "", b'h'));
+    v.push(csi("!", "", "", b'p'));
+    v.push(csi("", "1;5;44", "", b'm'));
+    for p in ["", &format!("{}", w + 1)] {
+        v.push(csi("", p, " ", b'@'));
+        v.push(csi("", p, " ", b'A'));
+    }
+    v.push(csi("", &format!("66;1;1;{h};{w}"), "$", b'x'));
+    v.push(csi("", &format!("1;1;{h};{w}"), "$", b'z'));
+    v.push(csi("", "0;0;0;0", "$", b'{'));
+    v.push(csi("", "1", "*", b'z'));
+    for t in dcs_osc_tokens(3) {
+        if matches!(t.key.as_str(), "DCS macro text" | "DCS macro text csi" | "DCS macro self" | "DCS sixel data" | "OSC link open" | "OSC link close" | "DCS font ok-ish") {
+            v.push(t);
+        }
+    }
+    v
+}
+
+pub fn dcs_osc_tokens(level: u8) -> Vec<Token> {
+    let mut v = Vec::new();
+    let dcs = |k: &str, body: &[u8]| {
+        let mut b = vec![0x1b, b'P'];
+        b.extend_from_slice(body);
+        b.extend_from_slice(&[0x1b, b'\\']);
+        tok(format!("DCS {k}"), b)
+    };
+    v.push(dcs("macro text", b"1;0;0!zAB"));
+    v.push(dcs("macro text csi", b"2;0;0!z\x1b[2J"));
+    v.push(dcs("macro clear-all", b"3;1;0!z"));
+    v.push(dcs("macro hex", b"4;0;1!z4142"));
+    v.push(dcs("macro hex repeat", b"5;0;1!z!3;41;42"));
+    v.push(dcs("macro hex bad", b"6;0;1!z4G"));
+    v.push(dcs("macro hex odd", b"6;0;1!z414"));
+    v.push(dcs("macro hex repeat bad", b"6;0;1!z!3x"));
+    v.push(dcs("macro invoke inside", b"7;0;0!zX\x1b[1*zY"));
+    v.push(dcs("macro self", b"8;0;0!z\x1b[8*z"));
+    v.push(dcs("macro p3 invalid", b"9;0;2!zA"));
+    v.push(dcs("macro no id", b"!zA"));
+    v.push(dcs("macro unicode slice", b"1\xff!z"));
+    v.push(dcs("macro id huge", b"2147483647;0;0!zA"));
+    v.push(dcs("empty", b""));
+    v.push(dcs("unknown", b"zzz"));
+    v.push(dcs("digits only", b"12;3"));
+    v.push(dcs("non-ascii", b"\xe9!z"));
+    v.push(dcs("font ok-ish", b"CTerm:Font:5:AAAA"));
+    v.push(dcs("font empty", b"CTerm:Font:5:"));
+    v.push(dcs("font no num", b"CTerm:Font::AAAA"));
+    v.push(dcs("font bad b64", b"CTerm:Font:5:***"));
+    v.push(dcs("font huge slot", b"CTerm:Font:99999999999999999999:AAAA"));
+    v.push(dcs("font no colon", b"CTerm:Font:5"));
+    v.push(dcs("font psf2 hdr", b"CTerm:Font:6:crVKhgAAAAAgAAAAAAAAAAABAAAQAAAAEAAAAAgAAAA="));
+    v.push(dcs("sixel empty", b"q"));
+    v.push(dcs("sixel data", b"0;1;0q#1~~~-@@@"));
+    v.push(dcs("sixel raster", b"q\"1;1;4;6#0;2;0;0;0~"));
+    v.push(dcs("sixel params", b"9;1q?"));
+    if level <= 2 {
+        v.push(dcs("esc inside", b"1;0;0!z\x1bQ"));
+        v.push(dcs("macro in dcs bad1", b"1;0;0!z\x1b[x"));
+        v.push(dcs("macro in dcs bad2", b"1;0;0!z\x1b[1x"));
+        v.push(dcs("macro in dcs bad3", b"1;0;0!z\x1b[1*x"));
+        v.push(dcs("macro in dcs digits", b"1;0;0!z\x1b[[1*z"));
+        v.push(dcs("macro in dcs nonum", b"1;0;0!z\x1b[*z"));
+    }
+    let osc = |k: &str, body: &[u8]| {
+        let mut b = vec![0x1b, b']'];
+        b.extend_from_slice(body);
+        b.extend_from_slice(&[0x1b, b'\\']);
+        tok(format!("OSC {k}"), b)
+    };
+    v.push(osc("palette", b"4;1;rgb:ff/00/80"));
+    v.push(osc("palette idx>255", b"4;300;rgb:ff/00/80"));
+    v.push(osc("palette huge idx", b"4;99999999999;rgb:ff/00/80"));
+    v.push(osc("palette malformed", b"4;1;rgb:f/0/8"));
+    v.push(osc("palette two", b"4;1;rgb:01/02/03;2;rgb:04/05/06"));
+    v.push(osc("link open", b"8;;http://x"));
+    v.push(osc("link close", b"8;;"));
+    v.push(osc("link short", b"8;"));
+    v.push(osc("8 only", b"8"));
+    v.push(osc("empty", b""));
+    v.push(osc("unknown", b"0;title"));
+    v.push(osc("non-ascii", b"8;;\xe9"));
+    v.push(osc("non-ascii-early", b"8\xe9;"));
+    v.push(osc("esc inside", b"8;;a\x1bQb"));
+    let mut aps = vec![0x1b, b'_'];
+    aps.extend_from_slice(b"hello\x1bQ\x1b\\");
+    v.push(tok("APS", aps));
+    v.push(tok("APS empty", [0x1b, b'_', 0x1b, b'\\']));
+    v
+}
+
+/// ANSI music bodies (after the introducer); every note with modifiers, octaves, tempo, length, pause
+pub fn music_tokens() -> Vec<Token> {
+    let mut v = Vec::new();
+    let intros: [(&str, &[u8]); 3] = [("CSI M", b"\x1b[M"), ("CSI N", b"\x1b[N"), ("CSI |", b"\x1b[|")];
+    let mut bodies: Vec<Vec<u8>> = Vec::new();
+    for style in ["", "F", "B", "N", "L", "S", "X"] {
+        bodies.push(style.as_bytes().to_vec());
+    }
+    for o in 0..=7u8 {
+        for n in b"CDEFGAB" {
+            for m in ["", "+", "#", "-", "++", "--", ".", "4", "64.", "999999999999", "4..", "+-"] {
+                let mut b = format!("O{o}").into_bytes();
+                b.push(*n);
+                b.extend_from_slice(m.as_bytes());
+                bodies.push(b);
+            }
+        }
+    }
+    for t in ["T", "T0", "T32", "T255", "T256", "T99999999999", "L", "L0", "L1", "L64", "L65", "L4.", "L99999999999..", "P", "P0", "P4", "P64.", "P9999999999"] {
+        bodies.push(t.as_bytes().to_vec());
+        let mut b = t.as_bytes().to_vec();
+        b.push(b'C');
+        bodies.push(b);
+    }
+    for t in ["<<<<<<<<C", ">>>>>>>>B+", "O", "OX", "O7", "MFMBMNMLMS", "M", "MM", "Z", "C\x0e", "\x1b", "C\x1b[M"] {
+        bodies.push(t.as_bytes().to_vec());
+    }
+    for (k, intro) in intros {
+        for body in &bodies {
+            let mut b = intro.to_vec();
+            b.extend_from_slice(body);
+            b.push(0x0e);
+            v.push(tok(format!("music {k}"), b));
+        }
+    }
+    v
+}
+
+/// command bytes of the non-ANSI emulations and of the wrappers around the ANSI parser
+pub fn native_tokens(emu: Emu) -> Vec<Token> {
+    let mut v = Vec::new();
+    match emu {
+        Emu::Avatar => {
+            for c in 0..=9u8 {
+                v.push(tok(format!("AVT ^V {c}"), [0x16, c]));
+            }
+            v.push(tok("AVT ^V other", [0x16, b'A']));
+            for a in [0u8, 1, 7, 0x80, 0xff] {
+                v.push(tok("AVT color", [0x16, 1, a]));
+            }
+            for (x, y) in [(0u8, 0u8), (1, 1), (80, 25), (255, 255), (0, 255), (255, 0), (24, 79)] {
+                v.push(tok("AVT goto", [0x16, 8, x, y]));
+            }
+            for (c, n) in [(b'A', 0u8), (b'A', 1), (b'A', 80), (b'A', 255), (0x0a, 255), (0x19, 3), (0x16, 2), (0x1b, 4), (0x0c, 2)] {
+                v.push(tok("AVT repeat", [0x19, c, n]));
+            }
+            v.push(tok("AVT clear", [0x0c]));
+        }
+        Emu::PcBoard => {
+            for t in ["@X07", "@XFF", "@X0", "@X", "@", "@@", "@Xzz", "@CLS@", "@X1", "@POS:5@", "@X\x1b["] {
+                v.push(tok("PCB code", t.as_bytes()));
+            }
+        }
+        Emu::CtrlA => {
+            for c in 0..=255u8 {
+                v.push(tok(if c >= 128 { "CTRLA right".to_string() } else { format!("CTRLA {}", (c as char).escape_default()) }, [1, c]));
+            }
+        }
+        Emu::Renegade => {
+            for t in ["|00", "|15", "|16", "|23", "|31", "|39", "|40", "|1", "|", "||", "|x", "|1x", "|3\x1b"] {
+                v.push(tok("RENEGADE code", t.as_bytes()));
+            }
+        }
+        Emu::Petscii => {
+            for c in 0..=255u8 {
+                v.push(tok(format!("PETSCII ESC {c:02x}"), [0x1b, c]));
+            }
+        }
+        Emu::Atascii => {
+            for c in 0..=255u8 {
+                v.push(tok(format!("ATASCII ESC {c:02x}"), [0x1b, c]));
+            }
+        }
+        Emu::Viewdata => {
+            for c in 0..=255u8 {
+                v.push(tok(format!("VIEWDATA ESC {c:02x}"), [0x1b, c]));
+            }
+        }
+        _ => {}
+    }
+    v
+}
+
+pub fn byte_tokens() -> Vec<Token> {
+    (0..=255u8).map(|b| tok(format!("byte {b:02x}"), [b])).collect()
+}
+
+/// Start contexts: byte prefixes fed through the same parser, so every context is reachable by construction.
+pub fn contexts(emu: Emu, w: i32, h: i32) -> Vec<(&'static str, Vec<u8>)> {
+    let lf: u8 = match emu {
+        Emu::Petscii => 0x0d,
+        Emu::Atascii => 0x9b,
+        _ => 0x0a,
+    };
+    let clear: u8 = match emu {
+        Emu::Petscii => 0x93,
+        Emu::Atascii => 0x7d,
+        _ => 0x0c,
+    };
+    let mut v: Vec<(&'static str, Vec<u8>)> = vec![("fresh", vec![]), ("cleared", vec![clear]), ("scrollback", vec![lf; (h + 3) as usize])];
+    let mut filled = Vec::new();
+    for _ in 0..(w * h - 1).max(1) {
+        filled.push(b'#');
+    }
+    v.push(("filled", filled));
+    if emu.is_ansi_family() {
+        let s = |x: String| x.into_bytes();
+        v.push(("tb-margins", s(format!("\x1b[2;{}r", (h - 1).max(2)))));
+        v.push(("lr-margins", s(format!("\x1b[?69h\x1b[2;{}s", (w - 1).max(2)))));
+        v.push(("all-margins", s(format!("\x1b[2;{};2;{}r", (h - 1).max(2), (w - 1).max(2)))));
+        v.push(("insert-mode", s("\x1b[4h".into())));
+        v.push(("nowrap", s("\x1b[?7l".into())));
+        v.push(("bottom-right", s("\x1b[999;999H".into())));
+        let mut sv = s("\x1b[999;999H\x1b[s\x1b7".into());
+        sv.extend(vec![lf; (h + 3) as usize]);
+        v.push(("saved-then-scrollback", sv));
+        v.push(("macros", b"\x1bP1;0;0!z\x1b[2*z\x1b\\\x1bP2;0;0!zX\x1b\\".to_vec()));
+        v.push(("open-link", b"\x1b]8;;http://x\x1b\\".to_vec()));
+        v.push(("ice", b"\x1b[?33h\x1b[5;44m".to_vec()));
+        let mut c = vec![clear];
+        c.extend(s(format!("\x1b[{};{}H", (h / 2).max(1), (w / 2).max(1))));
+        v.push(("cleared-mid", c));
+    }
+    v
+}
